@@ -27,5 +27,4 @@ E1Programs(k) ==
       e \in E1Edbs}
 
 ProgramsSmall == E1Programs(1) \cup {LostJoin, TwoCounts}
-ProgramsFull  == E1Programs(2) \cup {LostJoin, TwoCounts}
 =============================================================================
